@@ -142,7 +142,13 @@ ParentViol(op, I, H, P, CL) ==
                 ELSE kids0
         xs == [q \in 1..Len(P.its) |-> I[P.its[q]].v]
         plan == Plan(op, xs)
-    IN IF Len(kids) # Len(plan) THEN {"-child-count"}
+        (* without aligning children and plan: a child is closed only in a step in which
+           the plan closes one, or at the parent's completion (promptness, C11) *)
+        planCloses == {P.its[plan[m].close] : m \in {m2 \in 1..Len(plan) : plan[m2].close # 0}}
+                      \cup (IF P.d = 0 THEN {} ELSE {P.d})
+        kidCloses == {Cause(I, H[kids[m].d].o) : m \in {m2 \in 1..Len(kids) : kids[m2].d # 0}}
+    IN IF Len(kids) # Len(plan)
+       THEN {"-child-count"} \cup (IF kidCloses \subseteq planCloses THEN {} ELSE {"-child-close-step"})
        ELSE UNION {KidViol(op, I, H, P, xs, kids[m], plan[m]) : m \in 1..Len(plan)}
             \cup (IF \E m1, m2 \in 1..Len(kids) :
                        m1 < m2 /\ kids[m1].d # 0 /\ kids[m2].d # 0
